@@ -371,6 +371,45 @@ VF_EXPORT long vf_wk_length_formula(int kind, int length, int signatures, int co
     return (long) embedded_pairing_wkdibe_secretkey_marshalled_length(length, signatures != 0, compressed != 0);
 }
 
+// small wrappers of wkdibe.h without objects: what = 0 scalar_hash_reduce (in place on out), 1 random_zpstar, 2 random_g1, 3 random_g2, 4 random_gt
+VF_EXPORT void vf_wk_misc(int what, void* out) {
+    if (vf_use_cpp) {
+        switch (what) {
+        case 0: wk::scalar_hash_reduce(*(wk::Scalar*) out); return;
+        case 1: wk::random_zpstar(*(wk::Scalar*) out, vf_rand_bytes); return;
+        case 2: wk::random_g1(*(wk::G1*) out, vf_rand_bytes); return;
+        case 3: wk::random_g2(*(wk::G2*) out, vf_rand_bytes); return;
+        case 4: wk::random_gt(*(wk::GT*) out, vf_rand_bytes); return;
+        }
+        return;
+    }
+    switch (what) {
+    case 0: embedded_pairing_wkdibe_scalar_hash_reduce((embedded_pairing_wkdibe_scalar_t*) out); return;
+    case 1: embedded_pairing_wkdibe_random_zpstar((embedded_pairing_wkdibe_scalar_t*) out, vf_rand_bytes); return;
+    case 2: embedded_pairing_wkdibe_random_g1((embedded_pairing_wkdibe_g1_t*) out, vf_rand_bytes); return;
+    case 3: embedded_pairing_wkdibe_random_g2((embedded_pairing_wkdibe_g2_t*) out, vf_rand_bytes); return;
+    case 4: embedded_pairing_wkdibe_random_gt((embedded_pairing_wkdibe_gt_t*) out, vf_rand_bytes); return;
+    }
+}
+// fixed-size objects: marshalled length by kind (1 master key, 3 ciphertext, 4 signature)
+VF_EXPORT long vf_wk_fixed_length(int kind, int compressed) {
+    bool c = compressed != 0;
+    if (vf_use_cpp) {
+        switch (kind) {
+        case 1: return (long) (c ? wk::MasterKey::marshalledLength<true> : wk::MasterKey::marshalledLength<false>);
+        case 3: return (long) (c ? wk::Ciphertext::marshalledLength<true> : wk::Ciphertext::marshalledLength<false>);
+        case 4: return (long) (c ? wk::Signature::marshalledLength<true> : wk::Signature::marshalledLength<false>);
+        }
+        return -99;
+    }
+    switch (kind) {
+    case 1: return (long) embedded_pairing_wkdibe_masterkey_get_marshalled_length(c);
+    case 3: return (long) embedded_pairing_wkdibe_ciphertext_get_marshalled_length(c);
+    case 4: return (long) embedded_pairing_wkdibe_signature_get_marshalled_length(c);
+    }
+    return -99;
+}
+
 // the two-output sampler used by setup/keygen/qualifykey/encrypt/sign: decomposed exponent + the scalar it represents
 VF_EXPORT void vf_wk_random_zpstar_px(void* px, void* s) {
     wk::random_zpstar(*(embedded_pairing::bls12_381::PowersOfX*) px, *(wk::Scalar*) s, vf_rand_bytes);
